@@ -214,9 +214,10 @@ LateU(i) == IF parentSent THEN late \cup {<<i, "update">>} ELSE late
 \* create_checkpoint = orphan check under _parent_done_lock, THEN (outside the lock) the put on the checkpoint queue.
 \* Both are separate steps (faithful): `chk` holds the branches that passed the check and have not enqueued yet.
 \* An update enqueued after the parent's completion record although its check passed before is tagged "update-race".
-IsCkptPhase(i) == sub[i] \in {"ctxStart", "start", "succeed"} \/ (sub[i] = "atom" /\ Atom(i) \in {"ok", "fail"})
-CkOp(i) == IF sub[i] \in {"start", "succeed"} THEN StepOp(i) ELSE Ctx(i)
-CkPar(i) == IF sub[i] \in {"start", "succeed"} THEN Ctx(i) ELSE <<"p">>
+\* ("wstart": the synchronous START of the wait / callback with which a tsusp / susp atom begins)
+IsCkptPhase(i) == sub[i] \in {"ctxStart", "start", "succeed", "wstart"} \/ (sub[i] = "atom" /\ Atom(i) \in {"ok", "fail"})
+CkOp(i) == IF sub[i] \in {"start", "succeed", "wstart"} THEN StepOp(i) ELSE Ctx(i)
+CkPar(i) == IF sub[i] \in {"start", "succeed", "wstart"} THEN Ctx(i) ELSE <<"p">>
 \* after a resubmission the branch context exists already: no START is sent for it
 CtxExists(i) == sub[i] = "ctxStart" /\ Ctx(i) \in reg
 
@@ -224,7 +225,8 @@ BodyCheck(i) ==
   /\ wph[i] = "run" /\ i \notin chk /\ IsCkptPhase(i) /\ ~CtxExists(i)
   /\ IF Rejected(CkOp(i), CkPar(i))
        THEN End(i, "orphan", late, known) /\ chk' = chk
-       ELSE chk' = chk \cup {i} /\ UNCHANGED <<reg, sub, bpos, fout, wph, active, late, known>>
+       \* the operation is registered under its parent inside the same locked section as the check (state.py:436-441)
+       ELSE chk' = chk \cup {i} /\ reg' = reg \cup {CkOp(i)} /\ UNCHANGED <<sub, bpos, fout, wph, active, late, known>>
 
 \* With the repaired check a passed check means the parent had not completed AT CHECK TIME; if its completion record has been
 \* handed over by the time of the put, the update slipped behind it: tag "...-race" (the named, unrepaired deviation).
@@ -239,14 +241,17 @@ BodyPut(i) ==
   /\ wph[i] = "run" /\ i \in chk
   /\ chk' = chk \ {i}
   /\ CASE sub[i] = "ctxStart" ->
-            BSet(i, reg \cup {Ctx(i)}, "atom", bpos[i], fout[i], "run", active, LateTag(i, TRUE),
+            BSet(i, reg, "atom", bpos[i], fout[i], "run", active, LateTag(i, TRUE),
                  IF parentSent THEN known \cup {IF FixOrphanParent THEN "check-then-put" ELSE "orphan-first-time-op"} ELSE known)
        [] sub[i] = "start" ->
-            BSet(i, reg \cup {StepOp(i)}, "fn", bpos[i], fout[i], "run", active, LateTag(i, TRUE),
+            BSet(i, reg, "fn", bpos[i], fout[i], "run", active, LateTag(i, TRUE),
                  IF parentSent THEN known \cup {IF FixOrphanParent THEN "check-then-put" ELSE "orphan-first-time-op"} ELSE known)
        [] sub[i] = "succeed" ->
             BSet(i, reg, "atom", bpos[i] + 1, fout[i], "run", active, LateTag(i, FALSE),
                  IF parentSent THEN known \cup {"check-then-put"} ELSE known)
+       [] sub[i] = "wstart" ->
+            BSet(i, reg, "park", bpos[i], fout[i], "run", active, LateTag(i, FALSE),
+                 IF parentSent THEN known \cup {IF FixOrphanParent THEN "check-then-put" ELSE "orphan-first-time-op"} ELSE known)
        [] OTHER ->    \* child context SUCCEED / FAIL (sync)
             End(i, Atom(i), LateTag(i, FALSE), IF parentSent THEN known \cup {"check-then-put"} ELSE known)
 
@@ -257,7 +262,9 @@ BodyOther(i) ==
   /\ CASE CtxExists(i) -> BSet(i, reg, "atom", bpos[i], fout[i], "run", active, late, known)
        [] sub[i] = "atom" /\ Atom(i) = "step" -> BSet(i, reg, "start", bpos[i], fout[i], "run", active, late, known)
        [] sub[i] = "fn" -> BSet(i, reg, "succeed", bpos[i], fout[i], "run", active, late, known)     \* the user function runs
-       [] sub[i] = "atom" /\ Atom(i) \in {"susp", "tsusp", "bte"} ->
+       \* a wait / callback: its START is checkpointed first (wstart), then the branch parks
+       [] sub[i] = "atom" /\ Atom(i) \in {"susp", "tsusp"} -> BSet(i, reg, "wstart", bpos[i], fout[i], "run", active, late, known)
+       [] sub[i] = "park" \/ (sub[i] = "atom" /\ Atom(i) = "bte") ->
             BSet(i, reg, "atom", IF Atom(i) = "tsusp" THEN bpos[i] + 1 ELSE bpos[i], Atom(i), "done", active - 1, late, known)
        [] OTHER -> FALSE
 
